@@ -1,8 +1,11 @@
 // ---- environment of the slice `spawn_vehicle` ----------------------------------------------------------
 // Included inside `pub mod tr { … }` after env/im_shim.vs, env/transition_spec.vs, env/schedule_shim.vs and
 // env/sched_guard_shim.vs.  Everything `assume_specification` / `external_body` / `axiom` in this file is an
-// ASSUMPTION (listed in the header of slices/spawn_vehicle.vs); the rest are open spec functions and proved
-// lemmas.
+// ASSUMPTION (listed in the header of slices/spawn_vehicle.vs): A-display / A-fmt (Display of VehicleTypeIdx, Debug of
+// Vec<NodeIdx>), A-derive (Ord of VehicleIdx, Vehicle::clone), A-std7 (binary_search, unwrap_or_else), A-std8
+// (mem::replace), A-im (Index / IndexMut of im::HashMap).  The rest are open spec functions and proved lemmas; the
+// vocabulary copied from other slices / shims says where it comes from; env/train_formation_update_shim.vs is
+// included (module `tfu`), not copied.
 use vstd::std_specs::cmp::OrdSpec;
 
 // A-display: `{}` of a VehicleTypeIdx (derive_more Display of the repository; a no-op outside verus!)
@@ -284,12 +287,13 @@ pub open spec fn ends_added(net: &Network, path: Seq<NodeIdx>, out: Seq<NodeIdx>
     &&& forall|i: int| 0 <= i < path.len() ==> #[trigger] out[lead(net, path) + i] == path[i]
 }
 /// "If the depot given in the path is not available, spawn vehicle from overflow depot instead.": the path starts with
-/// a depot and `out` is the path with its FIRST AND LAST node replaced (whatever the last node is); the inner nodes
-/// are all there, in order
+/// a depot and `out` is the path with its first node replaced and its last node replaced if that is a depot, too;
+/// otherwise one node is put behind the path.  Every other node of the path is there, in order (D12: the unfixed
+/// code overwrote the last node whatever it was)
 pub open spec fn ends_replaced(net: &Network, path: Seq<NodeIdx>, out: Seq<NodeIdx>) -> bool {
     &&& net.sp_node(path[0]).sp_is_depot()
-    &&& out.len() == path.len()
-    &&& forall|i: int| 0 < i < path.len() - 1 ==> #[trigger] out[i] == path[i]
+    &&& out.len() == path.len() + trail(net, path)
+    &&& forall|i: int| 0 < i < path.len() - 1 + trail(net, path) ==> #[trigger] out[i] == path[i]
 }
 /// the result of Schedule::add_suitable_start_and_end_depot_to_path
 pub open spec fn depots_added(net: &Network, path: Seq<NodeIdx>, out: Seq<NodeIdx>) -> bool {
@@ -299,20 +303,15 @@ pub open spec fn depots_added(net: &Network, path: Seq<NodeIdx>, out: Seq<NodeId
 pub open spec fn activities_kept(net: &Network, path: Seq<NodeIdx>, out: Seq<NodeIdx>) -> bool {
     forall|i: int| 0 <= i < path.len() && net.sp_node(#[trigger] path[i]).sp_is_activity() ==> out.contains(path[i])
 }
-/// the path does not lose an activity unless it starts with a depot and ends with an activity (then the overflow
-/// branch of add_suitable_start_and_end_depot_to_path may overwrite the last node)
-pub open spec fn ends_alike(net: &Network, path: Seq<NodeIdx>) -> bool {
-    net.sp_node(path[0]).sp_is_depot() ==> net.sp_node(path[path.len() - 1]).sp_is_depot()
-}
 pub proof fn lemma_activities_kept(net: &Network, path: Seq<NodeIdx>, out: Seq<NodeIdx>)
-    requires path.len() >= 1, depots_added(net, path, out), ends_alike(net, path),
+    requires path.len() >= 1, depots_added(net, path, out),
     ensures activities_kept(net, path, out),
 {
     assert forall|i: int| 0 <= i < path.len() && net.sp_node(#[trigger] path[i]).sp_is_activity() implies out.contains(path[i]) by {
         if ends_added(net, path, out) {
             assert(out[lead(net, path) + i] == path[i]);
         } else {
-            assert(0 < i < path.len() - 1);
+            assert(0 < i < path.len() - 1 + trail(net, path));
             assert(out[i] == path[i]);
         }
     }
